@@ -82,7 +82,7 @@ func (cj *CookieJar) getByHostAndPath(host, path []byte) []*fasthttp.Cookie {
 	// port must not be included.
 	hostStr, _, err = net.SplitHostPort(hostStr)
 	if err != nil {
-		hostStr = utils.UnsafeString(host)
+		hostStr = trimIPv6Brackets(utils.UnsafeString(host))
 	}
 	// get cookies deleting expired ones
 	cookies = cj.getCookiesByHost(hostStr)
@@ -143,6 +143,8 @@ func (cj *CookieJar) SetByHost(host []byte, cookies ...*fasthttp.Cookie) {
 	hostStr := string(host) // the key outlives the caller's buffer
 	if h, _, err := net.SplitHostPort(hostStr); err == nil {
 		hostStr = h // lookups ignore the port
+	} else {
+		hostStr = trimIPv6Brackets(hostStr)
 	}
 
 	cj.mu.Lock()
@@ -202,6 +204,8 @@ func (cj *CookieJar) parseCookiesFromResp(host, path []byte, resp *fasthttp.Resp
 	hostStr := string(host) // the key outlives the caller's buffer
 	if h, _, err := net.SplitHostPort(hostStr); err == nil {
 		hostStr = h // lookups ignore the port
+	} else {
+		hostStr = trimIPv6Brackets(hostStr)
 	}
 
 	cj.mu.Lock()
@@ -282,4 +286,13 @@ func searchCookieByKeyAndPath(key, path []byte, cookies []*fasthttp.Cookie) *fas
 		}
 	}
 	return nil
+}
+
+// trimIPv6Brackets removes the brackets of an IPv6 literal without a port, as net.SplitHostPort does for one
+// with a port, so that "[::1]" and "[::1]:8080" are the same host.
+func trimIPv6Brackets(host string) string {
+	if len(host) > 1 && host[0] == '[' && host[len(host)-1] == ']' {
+		return host[1 : len(host)-1]
+	}
+	return host
 }
